@@ -1049,8 +1049,11 @@ class C19(Check):
                 if c not in rs:
                     bad('width:category-not-a-range', f'width {w} categorised as {c}, ranges {rs}')
                 elif inc and w >= 0:
-                    holding = [range_str(lo, hi) for lo, hi in ivs if lo <= w and (hi is None or w < hi)]
-                    if holding != [c]:
+                    # "exactly one range defined by the boundary points": a width that lies ON a boundary
+                    # point may go to either neighbouring range — the statement does not decide that tie
+                    # (the code's half-open choice is proved for the model and tied by the correspondence)
+                    holding = [range_str(lo, hi) for lo, hi in ivs if lo <= w and (hi is None or w <= hi)]
+                    if c not in holding:
                         bad('width:wrong-range', f'width {w} categorised as {c}; ranges containing it: {holding}')
             st = dict((key, c) for key, c in out['stats'])
             if sum(st.values()) != len(ws):
